@@ -330,7 +330,7 @@ func runC12(c *eng.Ctx, thorough bool) {
 		if !c.Floor(f, "accepting (nil) returns", len(succ), 1) || len(f.Params) != 2 {
 			continue
 		}
-		k := reQuote(f.Params[1].Name())
+		k := reQuote(eng.VarName(f.Params[1]))
 		c.Cut(f, "key accepted", succ, eng.GD(f, `^logical\.IsRelativePath\(`+k+`\)$|^strings\.Contains\(`+k+`, "\.\."\)$`, false), nil)
 	}
 	if f := c.Fn("logical.(*storageView).SubView"); f != nil {
@@ -677,7 +677,7 @@ func c12NamespacePrefix(c *eng.Ctx) {
 	}
 	c.Clause("R2", "C12.6")
 	if len(empty) > 0 {
-		c.Cut(f, "empty storage prefix", empty, eng.Or(eng.G(f, `^`+reQuote(ns.Name())+` == nil$`, true), eng.G(f, `^`+reQuote(ns.Name())+`\.ID == `+reQuote(strconv.Quote(rootID))+`$`, true)), nil)
+		c.Cut(f, "empty storage prefix", empty, eng.Or(eng.G(f, `^`+reQuote(eng.VarName(ns))+` == nil$`, true), eng.G(f, `^`+reQuote(eng.VarName(ns))+`\.ID == `+reQuote(strconv.Quote(rootID))+`$`, true)), nil)
 	}
 	c.Clause("R5", "C12.6")
 	if !c.Floor(f, "returns of a derived prefix", len(derived), 1) {
